@@ -9,7 +9,9 @@ from vf.func.stubs import AUTHOR, PEER1, PEER2, LEAD, ROBOT
 ID = 'C04'
 LEVEL = 'exploration'
 EXHAUSTIVE_MEANS_ALL = True
-RULE = ('every cell of (required peers, required leaders, author approval '
+RULE = ('(system-level companion: sampled cells replayed on real '
+        'repositories through put_job/process_task with the same oracle) '
+        'every cell of (required peers, required leaders, author approval '
         'on/off, author is a leader) x each of the 5 users in one of 5 review '
         'states x every subset of {bypass_author, bypass_peer, bypass_leader, '
         'approve, unanimity} [x every assignment of a source (admin comment, '
@@ -30,7 +32,8 @@ ASSUMPTIONS = [
     'are run but the unanimity clause is not asserted on them',
 ]
 MIN_NONTRIVIAL = 1000
-REQUIRED_COUNTERS = {'expected_pass': 100, 'expected_refusal': 100}
+REQUIRED_COUNTERS = {'expected_pass': 100, 'expected_refusal': 100,
+                     'c04w_agree_pass': 10, 'c04w_agree_refuse': 10}
 SHARD_TIMEOUT = {'quick': 600, 'thorough': 3600}
 
 STATES = ('absent', 'participant', 'approved', 'changes', 'approved+changes')
@@ -234,12 +237,19 @@ def run_shard(spec, acc):
             idx += 1
             if idx % n != shard:
                 continue
+            if tier == 'quick' and (idx // n + spec['seed']) % 2:
+                continue          # quick: every other user-state vector
             for mask in range(32):
                 rot += 1
                 for sources in source_assignments(mask, tier, rot):
                     run_cell(cfg, states, mask, sources, acc, gwf, messages)
-    acc.exhaustive['configs x 5^5 user states x 2^5 options (%s sources)'
-                   % ('all' if tier == 'thorough' else 'rotating')] = True
+    # system-level companion: sampled cells on real repositories
+    from vf.world import gates_world
+    gates_world.c04_run(spec, acc, 8 if tier == 'quick' else 60)
+    acc.exhaustive['configs x 5^5 user states x 2^5 options (%s)'
+                   % ('all sources' if tier == 'thorough' else
+                      'rotating sources, every other state vector')] = \
+        tier == 'thorough'
     acc.count('configs', 0)
 
 
@@ -248,6 +258,14 @@ def finalize(acc, tier, seed):
 
 
 def replay(w, acc):
+    if w.get('world'):
+        import random
+        from vf.world import gates_world, runner
+        runner.quiet()
+        from vf.common import env
+        return gates_world.c04_cell(
+            acc, random.Random('c04w-%s-%s' % (env.seed(), w['idx'])),
+            w['idx'])
     import logging
     logging.disable(logging.CRITICAL)
     from bert_e.workflow import gitwaterflow as gwf
